@@ -1,0 +1,6 @@
+//go:build !verif
+
+package graph
+
+// verifYield is a verification yield point; it does nothing unless built with -tags verif.
+func verifYield(string, string) {}
